@@ -46,4 +46,20 @@ C20_Clauses(cfg, h) ==
                        /\ \A i \in 1..Len(h) : h[i].ev = "exec" => h[i].t0 <= cans[1].t,
    terminated   |-> Len(rets) = 1
   ]
+\* C02 on timed runs: the fallback is invoked only after all N attempts failed - in particular not
+\* because a cancellation ended the wait between two attempts
+C02T_Clauses(cfg, h) ==
+  [ fbOnlyAfterBudget |-> \A i \in 1..Len(h) : h[i].ev = "fb" =>
+        LET a == Attempts(h, h[i].p) IN Len(a) = cfg.N /\ \A k \in 1..Len(a) : ~a[k].ok,
+    fbAfterBudget     |-> (cfg.fb /\ ~(\E i \in 1..Len(h) : h[i].ev = "cancel") /\ cfg.n = 0) =>
+        LET a == Attempts(h, 0) IN (Len(a) = cfg.N /\ \A k \in 1..Len(a) : ~a[k].ok) => \E i \in 1..Len(h) : h[i].ev = "fb" ]
+
+\* C05 on timed runs: a cancellation that arrives from outside while the run waits between attempts
+C05T_Clauses(cfg, h) ==
+  LET rets == SelectSeq(h, LAMBDA e : e.ev = "runret")
+      cans == SelectSeq(h, LAMBDA e : e.ev = "cancel")
+  IN [ \* no new attempt after the cancellation
+       noNewAttempt |-> cans # <<>> => \A i \in 1..Len(h) : h[i].ev = "exec" => h[i].t0 <= cans[1].t,
+       \* the run was cut short: it reports the context's error, not success and not another error
+       ctxErr       |-> (cans # <<>> /\ cfg.n = 0) => Len(rets) = 1 /\ rets[1].iserr /\ rets[1].ctxerr ]
 =============================================================================
